@@ -17,12 +17,12 @@ inductive Change (κ ν δ : Type) where
   | insert (k : κ) (v : ν)
   | remove (k : κ)
   | change (k : κ) (d : δ)
-deriving Repr
+deriving Repr, DecidableEq
 
 inductive Diff (κ ν δ : Type) where
   | replace (l : List (κ × ν))
   | modify (es : List (Change κ ν δ))
-deriving Repr
+deriving Repr, DecidableEq
 
 abbrev KV (κ ν : Type) := List (κ × ν)
 
@@ -71,13 +71,18 @@ def kremove (m : KV κ ν) (k : κ) : KV κ ν := (kerase m k).2
 def kmodify (m : KV κ ν) (k : κ) (f : ν → ν) : KV κ ν :=
   m.map fun (k', v) => if k' = k then (k', f v) else (k', v)
 
+def remStep (m : KV κ ν) (e : Change κ ν δ) : KV κ ν := match e with | .remove k => kremove m k | _ => m
+def chgStep (N : Nested ν δ) (m : KV κ ν) (e : Change κ ν δ) : KV κ ν :=
+  match e with | .change k d => kmodify m k (fun v => N.applyMut v d) | _ => m
+def insStep (m : KV κ ν) (e : Change κ ν δ) : KV κ ν := match e with | .insert k v => kput m k v | _ => m
+
 /-- `apply_unordered_hashdiffs(list, diff)` : removals, then changes (on present keys), then inserts -/
 def apply (N : Nested ν δ) (base : KV κ ν) : Diff κ ν δ → KV κ ν
   | .replace r => r
   | .modify es =>
     let m0 := collect base
-    let m1 := es.foldl (fun m e => match e with | .remove k => kremove m k | _ => m) m0
-    let m2 := es.foldl (fun m e => match e with | .change k d => kmodify m k (fun v => N.applyMut v d) | _ => m) m1
-    es.foldl (fun m e => match e with | .insert k v => kput m k v | _ => m) m2
+    let m1 := es.foldl remStep m0
+    let m2 := es.foldl (chgStep N) m1
+    es.foldl insStep m2
 
 end RMap
